@@ -197,7 +197,7 @@ func buildItems(thorough bool) []*item {
 		case k.class == clF:
 			if thorough {
 				// every batch of <=2 over the 4 keys, every batch of 3 over 3 keys
-				graph("graph4", m4, cat(batchesOf(m4, 2), batchesOf(m3, 3)), keys4, 16, 81)
+				graph("graph4", m4, cat(batchesOf(m4, 2), batchesOf(m3, 3)), keys4, 8, 81)
 			} else {
 				// 81 states with single mutations and one-mutation batches;
 				// 27 states with every batch of <=2 and every batch of 3 over one key
@@ -207,14 +207,14 @@ func buildItems(thorough bool) []*item {
 		case k.class == clBM:
 			// state = reference x both layers: up to 9 layer states per key
 			if thorough {
-				graph("graph3", m3, cat(batchesOf(m3, 2), batchesOf(m3, 3)), keys3, 8, 729)
-				graph("graph4", m4, cat(batchesOf(m4, 2), batchesOf(m1, 3)), keys4, 4, 6561)
+				graph("graph3", m3, cat(batchesOf(m3, 2), batchesOf(m3, 3)), keys3, 4, 729)
+				graph("graph4", m4, batchesOf(m4, 2), keys4, 2, 6561)
 			} else {
 				graph("graph3", m3, cat(batchesOf(m3, 2), batchesOf(m1, 3)), keys3, 2, 729)
 			}
 		case k.class == clBF:
 			if thorough {
-				graph("graph2", m2, cat(batchesOf(m2, 2), batchesOf(m2, 3)), keys2, 8, 120)
+				graph("graph2", m2, cat(batchesOf(m2, 2), batchesOf(m2, 3)), keys2, 4, 120)
 				graph("graph3", m3, nil, keys3, 1, 1000)
 			} else {
 				graph("graph2", m2a, batchesOf(m2a, 2), keys2, 1, 50)
@@ -312,7 +312,11 @@ func buildItems(thorough bool) []*item {
 			wt := cat(singles(mutsOf(keys6, wvals)[:6]), singles([]mut{dl(kAPipe)}), wb[:1], ctl)
 			if thorough {
 				wd = 4
-				wt = cat(singles(mutsOf(keys6, wvals)[:6]), singles([]mut{dl(kAPipe), dl(kFF)}), wb, ctl)
+				if k.class == clBM {
+					wt = cat(singles(mutsOf(keys6, wvals)[:6]), singles([]mut{dl(kAPipe), dl(kFF)}), wb, ctl)
+				} else {
+					wt = cat(singles(mutsOf(keys6, wvals)[:6]), singles([]mut{dl(kAPipe)}), wb[:1], wb[2:], ctl)
+				}
 			}
 			if k.class == clBM {
 				wd++
